@@ -42,6 +42,13 @@ func init() {
 	mutant(&Mutant{Name: "c10-mediatype-lowercase-uncapped", Property: "C10", File: "common.go",
 		Old: "\t\t\t\tif i-lastString < 1024 { // ToLower may otherwise slow down minification greatly\n\t\t\t\t\tparse.ToLower(b[lastString:i])\n\t\t\t\t}\n", New: "\t\t\t\tparse.ToLower(b[lastString:i])\n",
 		Rule: "R10.6", Construct: "Mediatype"})
+	mutant(&Mutant{Name: "c10-padding-box-position-kept-across-layers", Property: "C10", File: "css/css.go",
+		Old: "\t\t\tiPaddingBox := -1 // position of background-origin that is padding-box\n", New: "",
+		Old2: "\tcase Background:\n\t\tstart := 0\n", New2: "\tcase Background:\n\t\tstart, iPaddingBox := 0, -1\n",
+		Rule: "R10.5", Construct: "is reset in every round"})
+	mutant(&Mutant{Name: "c10-svg-pi-skip-never-ends", Property: "C10", File: "svg/svg.go",
+		Old: "if t := *tb.Shift(); t.TokenType == xml.StartTagClosePIToken || t.TokenType == xml.ErrorToken {", New: "if t := *tb.Shift(); t.TokenType == xml.StartTagClosePIToken {",
+		Rule: "R10.8", Construct: "leaves on ErrorToken"})
 	mutant(&Mutant{Name: "c10-css-level-not-decremented", Property: "C10", File: "css/css.go",
 		Old: "\tc.tokensLevel--\n\treturn values\n}", New: "\treturn values\n}",
 		Rule: "R10.2", Construct: "minifyTokens"})
@@ -63,6 +70,7 @@ func runC10(c *Ctx) {
 	c.r104()
 	c.r105()
 	c.r106()
+	c.r108()
 }
 
 // lenLowerBound derives, from an outcome of a condition, a lower bound of len(<expr>) (by expression text).
